@@ -5,6 +5,7 @@ import (
 	"go/constant"
 	"go/token"
 	"go/types"
+	"sort"
 	"strings"
 
 	"golang.org/x/tools/go/ssa"
@@ -55,6 +56,37 @@ func C12(ctx *Ctx) {
 				continue
 			}
 			cy, _ := r.Final["Cycles"].(*absint.Int)
+			if cy != nil && (cy.Lo < 1 || cy.Hi >= 128) {
+				// the interval of a sum does not see that a term such as ite(c)(0|$FF) stands for 0 or -1: decide
+				// the merges both ways (every combination, feasible or not) and take the hull of the results
+				conds := map[string]bool{}
+				absint.IteConds(cy.Lin, conds)
+				var keys []string
+				for k := range conds {
+					keys = append(keys, k)
+				}
+				sort.Strings(keys)
+				if n := len(keys); n > 0 && n <= 8 {
+					ro := absint.Ops{In: absint.NewInterner()}
+					lo, hi := ^uint64(0), uint64(0)
+					for a := 0; a < 1<<uint(n); a++ {
+						asg := map[string]bool{}
+						for i, k := range keys {
+							asg[k] = a>>uint(i)&1 == 1
+						}
+						v := ro.Rebuild(cy.Lin, asg)
+						if v.Lo < lo {
+							lo = v.Lo
+						}
+						if v.Hi > hi {
+							hi = v.Hi
+						}
+					}
+					if lo >= 1 && hi < 128 {
+						cy = &absint.Int{W: cy.W, Lo: lo, Hi: hi, Lin: cy.Lin, Bits: cy.Bits}
+					}
+				}
+			}
 			if cy == nil || cy.Lo < 1 || cy.Hi >= 128 {
 				cyc.add(fmt.Sprintf("%s:%s", rs, isa.Ops[c.Opcode].Mn), c.Opcode, "", fmt.Sprintf("cell %s: Cycles at return = %s", c, fmtVal(r.Final["Cycles"])))
 			}
